@@ -268,6 +268,9 @@ func buildUniverse() (*universe, error) {
 	u.addShare("sh-N-file", "f", false, 13, time.Time{})
 	u.addShare("sh-T-dec", "ss-dec", true, 14, time.Time{})
 	u.addShare("sh-expired", "f", true, 15, pastExpiry)
+	// expiry instants that "zero time" helpers may mistake for "no expiry": the Unix epoch and half a second after it
+	u.addShare("sh-expired-epoch", "f", true, 18, time.Unix(0, 0).UTC())
+	u.addShare("sh-expired-epoch-half", "f", true, 19, time.Unix(0, 500000000).UTC())
 	u.addShare("sh-deleted", "f", true, 16, time.Time{})
 	u.addShare("sh-undeleted", "f", true, 17, time.Time{})
 	u.N[u.id("sh-deleted")].Deleted = true
